@@ -9,14 +9,14 @@ from vlib.spies import SpyCassette, SpyRandom
 
 PRE = ['raise_user', 'raise_interrupt', 'discard', 'force']
 PRE_TRANSPARENCY_ONLY = ['disable']    # used by C04 / C18; not a capture fault of C05's quantifier
-ON_IN = ['badkey', 'body_discard', 'body_force', 'body_raise_user', 'body_raise_interrupt', 'value_unencodable']
-ON_OUT = ['badkey', 'body_discard', 'body_force', 'body_raise_user', 'body_raise_interrupt', 'value_unencodable']
+ON_IN = ['badkey', 'body_discard', 'body_force', 'body_raise_user', 'body_raise_interrupt', 'value_unencodable', 'body_raise_unencodable']
+ON_OUT = ['badkey', 'body_discard', 'body_force', 'body_raise_user', 'body_raise_interrupt', 'value_unencodable', 'body_raise_unencodable']
 # faults that are behaviour of the service itself (they happen in the twin and in a replay as well)
-SERVICE_LEVEL = {'raise_user', 'raise_interrupt', 'body_raise_user', 'body_raise_interrupt', 'value_unencodable', 'badkey'}
+SERVICE_LEVEL = {'raise_user', 'raise_interrupt', 'body_raise_user', 'body_raise_interrupt', 'value_unencodable', 'badkey', 'body_raise_unencodable'}
 # faults after which the framework must not save the recording
 CAPTURE_FAILURES = {'badkey_key', 'handler_raises', 'resolver_raises', 'discard', 'body_discard'}
 
-EXTRACTORS = [None, 'ok', 'raises', 'junk_none', 'junk_int', 'junk_str', 'junk_pairs']
+EXTRACTORS = [None, 'ok', 'raises', 'junk_none', 'junk_int', 'junk_str', 'junk_pairs', 'ok_calls_output']
 
 
 def base_programs(seed, n, **opts):
@@ -98,9 +98,14 @@ def execute(prog, faults, extractor=None, fail_save=False, rate=None, enabled=Tr
     p['params'] = params or None
     res.box_cm = None
     if recorder is None:
-        res.box_cm = open_box(kind)
+        res.box_cm = open_box('memory' if kind == 'async' else kind)
         res.box = res.box_cm.__enter__()
-        res.spy = SpyCassette(res.box.cassette, fail_saves=[1] if fail_save else [])
+        inner = res.box.cassette
+        if kind == 'async':
+            from vlib.cassettes import async_over
+            inner = async_over(inner)
+            res.async_cassette = inner
+        res.spy = SpyCassette(inner, fail_saves=[1] if fail_save else [])
         res.recorder = TapeRecorder(res.spy)
         res.recorder._random = SpyRandom(rng_seed)
         if enabled:
@@ -141,6 +146,12 @@ def _now_utc():
 
 
 def close(res):
+    if getattr(res, 'async_cassette', None) is not None:
+        try:
+            res.async_cassette.close()
+        except Exception:
+            pass
+        res.async_cassette = None
     if res.box_cm is not None:
         res.box_cm.__exit__(None, None, None)
         res.box_cm = None
